@@ -247,6 +247,17 @@ class CrawlRun(object):
             os.write(self.trace_fd, (json.dumps(kw) + '\n').encode())
         self.points += 1
         if self.crash_at is not None and self.points == self.crash_at:
+            if getattr(self, 'crash_kind', 'kill') == 'fatal':
+                # the process dies of a fatal local error instead of a kill: the table operation that has just been
+                # done reports "disk full" to its caller (client context only), the application unwinds and exits;
+                # the 'crash' marker is written when it has (execute)
+                if kw.get('e') == 'tx':
+                    self.fatal_fired = self.points
+                    if self.trace_fd is not None:
+                        os.write(self.trace_fd, (json.dumps({'e': 'fatal', 'point': self.points}) + '\n').encode())
+                    import sqlite3
+                    raise sqlite3.OperationalError('database or disk is full')
+                return
             if self.trace_fd is not None:
                 os.write(self.trace_fd, (json.dumps({'e': 'crash', 'point': self.points}) + '\n').encode())
             os._exit(9)
@@ -496,6 +507,13 @@ class CrawlRun(object):
             finally:
                 signal.setitimer(signal.ITIMER_VIRTUAL, 0)
                 signal.signal(signal.SIGVTALRM, oldsig)
+            if getattr(self, 'fatal_fired', None) and kind in ('ok', 'exc'):
+                # died of the injected fatal error (whatever exit status it chose): the end of run 1
+                if self.trace_fd is not None:
+                    os.write(self.trace_fd, (json.dumps({'e': 'crash', 'point': self.fatal_fired, 'kind': 'fatal',
+                                                         'how': str(val)[:80]}) + '\n').encode())
+                self.outcome = 'fatal'
+                return self.ev
             if kind == 'exc' and isinstance(val, Runaway):
                 kind = 'hang'
                 self.log(e='hang', pending=len(self.pending), runaway=str(val))
